@@ -191,7 +191,7 @@ func report(t evid.TB, r *evid.Recorder, v *verdict, rc replayCase) {
 func TestModuleDigests(t *testing.T) {
 	r := evid.R()
 	ctx := context.Background()
-	r.Check(t, r.Scale(1500, 42000), 1, func(t *rapid.T) {
+	r.Check(t, r.Scale(4000, 42000), 1, func(t *rapid.T) {
 		c := genCase(t)
 		r.Eval()
 		classify(r, c)
@@ -263,7 +263,7 @@ func checkManifestCase(ctx context.Context, c manifestCase) *verdict {
 func TestManifestPaths(t *testing.T) {
 	r := evid.R()
 	ctx := context.Background()
-	r.Check(t, r.Scale(4000, 140000), 2, func(t *rapid.T) {
+	r.Check(t, r.Scale(10000, 140000), 2, func(t *rapid.T) {
 		c := genManifestCase(t)
 		r.Eval()
 		r.Class(fmt.Sprintf("manifest:files=%s", bucketCount(len(c.Files))))
